@@ -12,6 +12,8 @@ STRS = ['a', 'b', 'c', 'ab']
 VARNAMES = ['x', 'y', 'z', 'w', 'u', 'v', 'p', 'q', 'a', 'b', 'c', 'd', 'e', 'f',
             'g', 'h', 'k', 'm', 'n', 'r', 's', 't']
 ATOMS = ('N', 'S')
+# user wrappers of the K variants: `ArgMax2(x) = ArgMaxK(x, 2);` (printed with the program)
+KVARIANTS = ('ArgMin2', 'ArgMax2', 'ArgMin3', 'ArgMax3')
 REC_FIELDS = (('a', 'N'), ('b', 'S'))
 
 DEFAULTS = dict(
@@ -49,6 +51,7 @@ class Gen(object):
         self.roots = set()
         self.excluded = {}
         self.labels = set()
+        self.kvariants = set()
         self.colvals = {}        # (pred, field) -> literal exprs present in facts
 
     # ------------------------------------------------------------------ helpers
@@ -509,6 +512,11 @@ class Gen(object):
         elif op in ('ArgMin', 'ArgMax'):
             t = rng.choice(ATOMS)
             e = ('arrow', self.expr(t, inner, 1), self.expr('N', inner, 1))
+        elif op in KVARIANTS:
+            et = rng.choice(ATOMS)
+            e = ('arrow', self.expr(et, inner, 1), self.expr('N', inner, 1))
+            t = 'L' + et
+            self.kvariants.add(op)
         else:
             t = rng.choice(ATOMS)
             e = self.expr(t, inner, 1)
@@ -601,11 +609,11 @@ class Gen(object):
                     t = types[i] = rng.choice(ATOMS)
                 op = rng.choice(o['pred_agg_ops_n'] if t == 'N' else o['pred_agg_ops_s'])
                 aggs[f] = op
-                if op in ('List', 'Set'):
+                if op in ('List', 'Set') or op in KVARIANTS:
                     types[i] = 'L' + t
             if vt and rng.random() < 0.6:
                 op = rng.choice(o['pred_agg_ops_n'] if vt == 'N' else o['pred_agg_ops_s'])
-                if op in ('List', 'Set'):
+                if op in ('List', 'Set') or op in KVARIANTS:
                     op = 'Max'
                 aggs['logica_value'] = op
             # grouping only on atoms
@@ -708,6 +716,9 @@ class Gen(object):
             return self.expr(t[1], env, 1)
         if op in ('ArgMin', 'ArgMax'):
             return ('arrow', self.expr(t, env, 1), self.expr('N', env, 1))
+        if op in KVARIANTS:
+            self.kvariants.add(op)
+            return ('arrow', self.expr(t[1], env, 1), self.expr('N', env, 1))
         return self.expr(t, env, 2)
 
     # ------------------------------------------------------------------ program
@@ -744,7 +755,10 @@ class Gen(object):
             self.excl('regenerated_empty_predicate')
 
     def result(self):
-        return {'rules': self.rules, 'inj': self.inj, 'ann': [],
+        ann = ['%s(x) = %sK(x, %s);' % (k, k[:-1], k[-1]) for k in sorted(self.kvariants)]
+        if ann:
+            self.labels.add('k_variant_aggregate')
+        return {'rules': self.rules, 'inj': self.inj, 'ann': ann,
                 'sig': {k: {'fields': [list(x) for x in v['fields']],
                             'value': v['value']} for k, v in self.sig.items()},
                 'preds': list(self.concrete),
